@@ -342,6 +342,15 @@ def optional(W, p):
     bad = [sec for sec in SECTIONS for c in (ca, cb) if not isinstance(c.get(sec), dict)]
     a, b = _norm(ca), _norm(cb)
     W.prove(a == b and not bad, "optional-sections", dict(diff=_diff(a, b), not_a_dict=bad))
+    # a section heading with nothing (or only a comment) below it: YAML reads it as null
+    for sec in ("state", "ibm", "warm_start", "grid"):
+        (tmp / "e.yaml").write_text("\n".join(base + [f"{sec}:", "    # nothing set here"]) + "\n")
+        try:
+            ce = conf.configure(tmp / "e.yaml")
+            bad_e = [x for x in SECTIONS if not isinstance(ce.get(x), dict)]
+            W.prove(_norm(ce) == a and not bad_e, "optional-sections", dict(empty_section=sec, diff=_diff(_norm(ce), a), not_a_dict=bad_e))
+        except (Exception, SystemExit) as exc:
+            W.prove(False, "optional-sections", dict(empty_section=sec, exception=f"{type(exc).__name__}: {exc}"[:200]))
     # a missing mandatory section is refused
     for missing in ("tracker", "time", "release", "output", "forcing"):
         lines = [ln for ln in base if not ln.startswith(missing + ":")]
